@@ -35,6 +35,8 @@ inductive DStmt where
   | branch (t : DTree)
   | ret (t : DTree)
   | jret (t : DTree)
+  /-- the evaluation of an extension leaf (an event in evaluation order, like a call) -/
+  | extS (tag : Nat)
   deriving Inhabited, Repr
 
 def opStr : Op → String
@@ -135,7 +137,7 @@ def DTree.extsL : List DTree → List Nat
 end
 
 def DStmt.tree? : DStmt → Option DTree
-  | .param _ => none
+  | .param _ | .extS _ => none
   | .letD _ _ t | .assign _ t | .callS t | .branch t | .ret t | .jret t => some t
 
 def DStmt.render (f : DTree → String) : DStmt → String
@@ -146,6 +148,7 @@ def DStmt.render (f : DTree → String) : DStmt → String
   | .branch t => s!"branch {f t}"
   | .ret t => s!"return {f t}"
   | .jret t => s!"jump-return {f t}"
+  | .extS t => s!"eval ext{t}"
 
 /-- resolution facts of a statement list (C03) -/
 def DStmt.refs : DStmt → List String
@@ -156,6 +159,7 @@ def DStmt.refs : DStmt → List String
   | .branch t => t.refs
   | .ret t => t.refs ++ ["return"]
   | .jret t => t.refs ++ ["jump-return"]
+  | .extS _ => []
 
 /-! ### The denotation of a stack -/
 
@@ -182,7 +186,7 @@ def AbsSt.bind (s : AbsSt) (r : Nat) (t : DTree) : AbsSt := { s with env := (r, 
 
 /-- one instruction.  A call binds its result register and the alias register after it (the F7
 reading) and is an event of the statement list: every call — operand or statement — appears in
-evaluation order.  The step looks at nothing but the state, so the denotation of a stack is a fold
+evaluation order; so does every evaluation of an extension leaf.  The step looks at nothing but the state, so the denotation of a stack is a fold
 and the denotation of `stack ++ [i]` extends that of `stack`. -/
 def abstractStep (s : AbsSt) (i : Instr) : AbsSt :=
   match i with
@@ -198,7 +202,7 @@ def abstractStep (s : AbsSt) (i : Instr) : AbsSt :=
   | .call f ps r =>
     let t := DTree.call f.name (ps.map s.res)
     ((s.bind r t).bind (r + 1) t).emit (.callS t)
-  | .ext tag r => s.bind r (.ext tag)
+  | .ext tag r => (s.bind r (.ext tag)).emit (.extS tag)
   | .letBinding v x =>
     let t := s.res x
     let s := { s with decls := s.decls ++ [v.innerName] }
@@ -283,7 +287,7 @@ def specVal (ref : Bool) (s : SpecSt) : ExprValue → Den
     (a.1 ++ [.callS (.call f a.2)], .call f a.2)
   | .field x a => ([], .field ((dlookup x s.dscope).getD 999999) (fieldIdx s x a))
   | .sub e => specExpr ref s e
-  | .ext tag _ => ([], .ext tag)
+  | .ext tag _ => ([.extS tag], .ext tag)
 def specArgs (ref : Bool) (s : SpecSt) : List Expr → List DStmt × List DTree
   | [] => ([], [])
   | e :: es => ((specExpr ref s e).1 ++ (specArgs ref s es).1, (specExpr ref s e).2 :: (specArgs ref s es).2)
